@@ -262,8 +262,6 @@ xds_decoder(vbi_decoder *vbi, int _class, int type,
 
 		case 4:		/* program type */
 		{
-			int neq;
-
 			neq = (pi->type_classf != VBI_PROG_CLASSF_EIA_608);
 			pi->type_classf = VBI_PROG_CLASSF_EIA_608;
 
